@@ -22,11 +22,11 @@ impl Wake for TaskWaker {
 }
 
 /// what a stream item looks like as a number
-pub trait AsI64 { fn as_i64(&self) -> i64; }
+pub trait AsI64 { fn as_i64(&self) -> i64; fn addr(&self) -> usize { 0 } }
 impl AsI64 for u32 { fn as_i64(&self) -> i64 { *self as i64 } }
-impl<A: BoundedOgreAllocator<u32> + Send + Sync + 'static> AsI64 for OgreUnique<u32, A> { fn as_i64(&self) -> i64 { **self as i64 } }
-impl<A: BoundedOgreAllocator<u32> + Send + Sync + 'static> AsI64 for OgreArc<u32, A> { fn as_i64(&self) -> i64 { **self as i64 } }
-impl AsI64 for Arc<u32> { fn as_i64(&self) -> i64 { **self as i64 } }
+impl<A: BoundedOgreAllocator<u32> + Send + Sync + 'static> AsI64 for OgreUnique<u32, A> { fn as_i64(&self) -> i64 { **self as i64 } fn addr(&self) -> usize { &**self as *const u32 as usize } }
+impl<A: BoundedOgreAllocator<u32> + Send + Sync + 'static> AsI64 for OgreArc<u32, A> { fn as_i64(&self) -> i64 { **self as i64 } fn addr(&self) -> usize { &**self as *const u32 as usize } }
+impl AsI64 for Arc<u32> { fn as_i64(&self) -> i64 { **self as i64 } fn addr(&self) -> usize { &**self as *const u32 as usize } }
 
 pub fn sm_locs<const M: usize>(sm: &StreamsManagerBase<M>, locs: &mut LocMap) {
     let (a, waker_size) = sm.verif_addrs();
